@@ -10,7 +10,7 @@
 import itertools
 import z3
 from .. import symx
-from ..symx import Ctx, explore, Violation, PathAbort
+from ..symx import Ctx, explore, Violation, PathAbort, Inconclusive
 from ..run import Check, run_jobs, src_hash
 
 PID = 'C09'
@@ -313,8 +313,148 @@ def _concrete_ref_check(q, ops, prios):
     return None
 
 
+# ------------------------------------------------------------------ exit actions (a user of the queue)
+
+EXIT_BEHAV = ['plain', 'adds-late', 'moves-next', 'removes-next']
+
+
+def _before(a, b):
+    """(priority, insertion number) order; forks through the solver for symbolic priorities"""
+    return bool(a[0] < b[0]) or (bool(a[0] == b[0]) and a[1] < b[1])
+
+
+def exit_scenario(ctx, concrete=None):
+    """the real Process._shutdown on a scripted exit queue: actions run in (priority, insertion) order, each once;
+    an action added, moved or removed WHILE the queue drains is honoured"""
+    import sc3
+    from sc3.base import main as _m
+    main = _m.main
+    tq = _tq()
+    n = 2 + ctx.choose('n', 2)
+    pr = [ctx.real(f'p{i}', 0, 10) for i in range(n)]
+    q_late = ctx.real('q', 0, 10)
+    behav = [EXIT_BEHAV[ctx.choose(f'b{i}', len(EXIT_BEHAV))] for i in range(n)]
+    rec = {'kind': 'exit', 'mode': 'nrt', 'n': n, 'behav': behav, 'names': [f'p{i}' for i in range(n)] + ['q']}
+    data = {'key': 'c09:exit-actions', 'replay': rec}
+    ran = []
+    acts = {}
+    saved = main._atexitq
+    queue = tq.TaskQueue()
+    ref = []          # [prio, seq, name] reference contents
+    seq = itertools.count()
+
+    def ref_add(p, name):
+        ref[:] = [e for e in ref if e[2] != name]
+        ref.append([p, next(seq), name])
+
+    def mk(i):
+        def act():
+            ran.append(f'a{i}')
+            pend = [e[2] for e in ref]
+            if behav[i] == 'adds-late':
+                queue.add(q_late, acts['late'])
+                ref_add(q_late, 'late')
+            elif behav[i] == 'moves-next' and pend:
+                queue.add(q_late, acts[pend[0]])
+                ref_add(q_late, pend[0])
+            elif behav[i] == 'removes-next' and pend:
+                queue.remove(acts[pend[0]])
+                ref[:] = [e for e in ref if e[2] != pend[0]]
+        return act
+    for i in range(n):
+        acts[f'a{i}'] = mk(i)
+    acts['late'] = lambda: ran.append('late')
+    for i in range(n):
+        queue.add(pr[i], acts[f'a{i}'])
+        ref_add(pr[i], f'a{i}')
+    # the reference order is produced alongside: the action that runs k-th must be the reference minimum at that time
+    expect = []
+    orig_pop = queue.pop
+    main._atexitq = queue
+    try:
+        with symx.shims():
+            # reference drain interleaved through the action bodies: record the expected head before every pop
+            def checked_pop():
+                if ref:
+                    best = ref[0]
+                    for e in ref[1:]:
+                        if _before(e, best):
+                            best = e
+                    expect.append(best[2])
+                    ref.remove(best)
+                return orig_pop()
+            queue.pop = checked_pop
+            main._shutdown()
+    except (PathAbort, Inconclusive, Violation):
+        raise
+    except Exception as e:
+        raise Violation(f'_shutdown raises {type(e).__name__}: {e} (behaviours {behav})', ctx_model(ctx), data)
+    finally:
+        main._atexitq = saved
+        import atexit
+        atexit.register(main._shutdown)
+    left = [e[2] for e in ref]
+    if ran != expect or left:
+        # the reference drain may not have been driven by pop() at all (e.g. iteration): finish it here
+        while ref:
+            best = ref[0]
+            for e in ref[1:]:
+                if _before(e, best):
+                    best = e
+            expect.append(best[2])
+            ref.remove(best)
+        raise Violation(f'exit actions ran {ran}; by (priority, insertion) order with the additions, moves and removals '
+                        f'made while draining: {expect} (behaviours {behav})', ctx_model(ctx), data)
+    ctx.obligations += 1
+    ctx.discharged += 1
+    ctx.note('exit')
+    for b in behav:
+        ctx.note('exit:' + b)
+    return {'behav': behav, 'ran': ran}
+
+
+def ctx_model(ctx):
+    try:
+        return ctx.model()
+    except Exception:
+        return None
+
+
+def job_exit(j):
+    st = explore(exit_scenario, max_paths=20000, timeout_ms=10000, stop_on_violation=True)
+    d = st.as_dict()
+    for v in d['violations']:
+        rec = v['data']['replay']
+        rec['values'] = {n: (v['model'] or {}).get(n) for n in rec['names']}
+        rec['what'] = v['what']
+    return d
+
+
 def replay(rec):
     tq = _tq()
+    if rec['kind'] == 'exit':
+        class C:
+            obligations = discharged = 0
+
+            def choose(self, name, n):
+                if name == 'n':
+                    return rec['n'] - 2
+                return EXIT_BEHAV.index(rec['behav'][int(name[1:])])
+
+            def real(self, name, *a, **k):
+                v = rec.get('values', {}).get(name)
+                return float(v) if v is not None else 1.0
+
+            def note(self, s):
+                pass
+
+            def model(self):
+                return None
+        try:
+            exit_scenario(C())
+        except Violation as v:
+            return v.what
+        return None
     if rec['kind'] == 'history':
         ops = [tuple(o) for o in rec['ops']]
         prios = list(rec['prios']) + [None] * (len(ops) - len(rec['prios']))
@@ -377,6 +517,9 @@ def main(tier, seed):
                     sjobs.append(dict(k=k, perm=perm, dead=dead, op=oi))
     for r in run_jobs('vf.props.c09', 'job_step', sjobs, 'none'):
         chk.add('inductive_step', r)
+    for r in run_jobs('vf.props.c09', 'job_exit', [dict()], 'nrt'):
+        chk.add('exit_actions', r)
+    chk.require_notes('exit_actions', ['exit'] + ['exit:' + b for b in EXIT_BEHAV])
     # init establishes the invariant
     q = tq.TaskQueue()
     if not (q._queue == [] and q._entry_finder == {} and q._removed_counter == 0 and q.empty()):
